@@ -134,7 +134,7 @@ def check_c15(case, stats):
 
 
 CHECKS = {'check_c15': check_c15}
-_B = {'quick': 120, 'thorough': 800}
+_B = {'quick': 120, 'thorough': 4000}
 
 
 def shards(tier):
